@@ -52,8 +52,13 @@ def profile_body(ctx, case):
     x = case["x"]
     y = np.array(case["y"], dtype=float)
     alpha = 1.0 if case["alpha"] is None else case["alpha"]
-    z = run_case(case)
+    # a quarter of the cases go through Weaver.integral_match (built in other units and converted first, see C01):
+    # what the facade hands to the matcher - reference, exponent, designation - shapes the displacement profile
+    z = run_case(case, via_facade=bool(case.get("facade")))
+    z = np.asarray(z)
     check_result_shape(z, len(x))
+    if case.get("facade"):
+        ctx.count("via-facade")
     # (1) outside the span of the fixed points: bit for bit
     for i in list(range(0, F[0])) + list(range(F[-1] + 1, len(x))):
         if z[i] != y[i]:
